@@ -1,0 +1,33 @@
+//go:build verif
+
+package redact
+
+// Contracts for the deductive checks in /verif (comment-only; see /verif/DESIGN.md).
+
+/*@
+import i "github.com/cockroachdb/redact/interfaces"
+import builder "github.com/cockroachdb/redact/builder"
+
+assume pure func reflect.ValueOf(x interface{}) reflect.Value
+
+assume pure func (v reflect.Value) Kind() reflect.Kind
+  ensures 0 <= result && result <= 26
+
+assume pure func (v reflect.Value) Len() int
+  requires v.Kind() == reflect.Array || v.Kind() == reflect.Chan || v.Kind() == reflect.Map || v.Kind() == reflect.Slice || v.Kind() == reflect.String
+  ensures 0 <= result && result <= 1099511627776
+
+assume pure func (v reflect.Value) Index(j int) reflect.Value
+  requires v.Kind() == reflect.Array || v.Kind() == reflect.Slice || v.Kind() == reflect.String
+  requires 0 <= j && j < v.Len()
+
+assume pure func (v reflect.Value) Interface() interface{}
+
+assume func (w i.SafeWriter) Print(args ...interface{})
+
+func JoinTo(w SafeWriter, delim RedactableString, values interface{})  [C11]
+  loop 1 invariant 0 <= i && l == v.Len()
+
+func Join(delim RedactableString, s []RedactableString) (r RedactableString) [C11]
+  ensures len(r) >= 0
+@*/
